@@ -15,12 +15,14 @@ package cmd
 
 import (
 	"bufio"
+	"bytes"
 	"context"
 	"crypto/tls"
 	"crypto/x509"
 	"encoding/hex"
 	"encoding/json"
 	"fmt"
+	"io"
 	"math/rand"
 	"net"
 	"net/http"
@@ -81,6 +83,18 @@ type xOp struct {
 	First string   `json:"first,omitempty"` // first URL (symbolic ports 1001 https, 1002 https, 1003 http)
 	Locs  []string `json:"locs,omitempty"`  // redirect targets, hop by hop
 	Tag   string   `json:"tag,omitempty"`
+	// cap: the server answering last sends a body of this many bytes (Content-Length, or chunked)
+	Body    *int `json:"body,omitempty"`
+	Chunked bool `json:"chunked,omitempty"`
+}
+
+// xPayload is the body the local servers send for a cap op
+func xPayload(n int) []byte {
+	b := make([]byte, n)
+	for i := range b {
+		b[i] = byte('a' + i%23)
+	}
+	return b
 }
 
 func xhx(s string) string { return hex.EncodeToString([]byte(s)) }
@@ -237,6 +251,8 @@ type xSock struct {
 	servers []*httptest.Server
 	real    map[string]string
 	pool    *x509.CertPool
+	bodyN   int  // < 0: the fixed two-byte body
+	chunked bool
 }
 
 func (s *xSock) handler(scheme string) http.Handler {
@@ -248,10 +264,28 @@ func (s *xSock) handler(scheme string) http.Handler {
 		if hop < len(s.locs) {
 			loc = s.locs[hop]
 		}
+		bodyN, chunked := s.bodyN, s.chunked
 		s.mu.Unlock()
 		if loc != "" {
 			w.Header().Set("Location", loc)
 			w.WriteHeader(http.StatusFound)
+			return
+		}
+		if bodyN >= 0 {
+			payload := xPayload(bodyN)
+			if !chunked {
+				w.Header().Set("Content-Length", strconv.Itoa(bodyN))
+			}
+			w.WriteHeader(http.StatusOK)
+			if chunked && bodyN > 0 {
+				k := bodyN/3 + 1
+				w.Write(payload[:k])
+				if f, ok := w.(http.Flusher); ok {
+					f.Flush()
+				}
+				payload = payload[k:]
+			}
+			w.Write(payload)
 			return
 		}
 		w.WriteHeader(http.StatusOK)
@@ -260,7 +294,7 @@ func (s *xSock) handler(scheme string) http.Handler {
 }
 
 func xNewSock() *xSock {
-	s := &xSock{real: map[string]string{}, pool: x509.NewCertPool()}
+	s := &xSock{real: map[string]string{}, pool: x509.NewCertPool(), bodyN: -1}
 	s.servers = []*httptest.Server{httptest.NewTLSServer(s.handler("https")), httptest.NewTLSServer(s.handler("https")), httptest.NewServer(s.handler("http"))}
 	for i, srv := range s.servers {
 		_, p, _ := net.SplitHostPort(srv.Listener.Addr().String())
@@ -556,13 +590,16 @@ func xExec(t *testing.T, op xOp, sock **xSock) (line string) {
 		}
 		sk.mu.Unlock()
 		return fmt.Sprintf("sys ok dummy=%s remotectx=%s clientstrict=%v earlyclient=%s iamhttp=%s iamip=%s iamsites=%s iamvc=%s%s", dummy, remote, client.StrictMode, earlyOut, iamHTTP, iamIP, iamAll, iamVC, iamMatrix)
-	case "do":
+	case "do", "cap":
 		if *sock == nil {
 			*sock = xNewSock()
 		}
 		s := *sock
 		s.mu.Lock()
-		s.locs, s.reqs = op.Locs, nil
+		s.locs, s.reqs, s.bodyN, s.chunked = op.Locs, nil, -1, op.Chunked
+		if op.Op == "cap" && op.Body != nil {
+			s.bodyN = *op.Body
+		}
 		s.mu.Unlock()
 		restore := s.install()
 		defer restore()
@@ -601,6 +638,18 @@ func xExec(t *testing.T, op xOp, sock **xSock) (line string) {
 			}
 		} else {
 			out = "ok:" + strconv.Itoa(resp.StatusCode)
+		}
+		if op.Op == "cap" {
+			// what the caller of Do gets to read: length, and whether it is byte for byte what the server sent
+			if err == nil {
+				got, rerr := io.ReadAll(resp.Body)
+				out += fmt.Sprintf(" len=%d same=%v", len(got), rerr == nil && op.Body != nil && bytes.Equal(got, xPayload(*op.Body)))
+			} else if strings.Contains(err.Error(), "exceeds max. safety limit") {
+				out = "refuse:too-large"
+			}
+			s.mu.Lock()
+			defer s.mu.Unlock()
+			return fmt.Sprintf("cap reqs=%d out=%s", len(s.reqs), out)
 		}
 		s.mu.Lock()
 		defer s.mu.Unlock()
@@ -842,6 +891,35 @@ func xGenerate(seed int64, thorough bool) []xOp {
 			}
 		}
 		ops = append(ops, op)
+	}
+	// 6. the response cap of http/client (deepening round): bodies around 1 MiB, Content-Length and chunked, behind 0..2 redirects
+	const mib = 1024 * 1024
+	sizes := []int{0, 1, mib - 1, mib, mib + 1, mib + 2, 2 * mib, r.Intn(mib), mib + 1 + r.Intn(mib)}
+	if thorough {
+		sizes = append(sizes, 2, 4096, mib/2, mib-2, 3*mib, r.Intn(mib), mib+1+r.Intn(4096), 4*mib+7)
+	}
+	k := 0
+	for _, n := range sizes {
+		for _, chunked := range []bool{false, true} {
+			for _, strict := range []bool{true, false} {
+				nctor := 1
+				if thorough {
+					nctor = 3
+				}
+				for c := 0; c < nctor; c++ {
+					n := n
+					op := xOp{Op: "cap", Ctor: []string{"New", "NewWithCache", "NewWithTLSConfig"}[(k+c)%3], Strict: strict, First: origins[k%2] + "/big", Body: &n, Chunked: chunked, Tag: "response-cap"}
+					if !strict && k%3 == 0 {
+						op.First = origins[2] + "/big"
+					}
+					for h := 0; h < k%3; h++ {
+						op.Locs = append(op.Locs, origins[(k+h)%2]+"/hop"+strconv.Itoa(h))
+					}
+					k++
+					ops = append(ops, op)
+				}
+			}
+		}
 	}
 	return ops
 }
